@@ -32,6 +32,8 @@
 #include <kernel/global/vector.hpp>
 #include <kernel/global/matrix.hpp>
 #include <kernel/global/filter.hpp>
+#include <kernel/global/muxer.hpp>
+#include <kernel/global/splitter.hpp>
 #include <kernel/solver/pcg.hpp>
 #include <kernel/solver/jacobi_precond.hpp>
 #include <c10_meshlib.hpp>
@@ -67,8 +69,7 @@ namespace c13
   };
   typedef LAFEM::VectorMirror<double, Index> Mirror;
 
-  template<typename V_> inline double* raw(V_& v) { return v.template elements<LAFEM::Perspective::pod>(); }
-  template<typename V_> inline const double* raw(const V_& v) { return v.template elements<LAFEM::Perspective::pod>(); }
+  template<typename V_> inline auto raw(V_& v) -> decltype(v.template elements<LAFEM::Perspective::pod>()) { return v.template elements<LAFEM::Perspective::pod>(); }
 
   inline double* matval(LAFEM::SparseMatrixCSR<double, Index>& m) { return m.val(); }
   inline const double* matval(const LAFEM::SparseMatrixCSR<double, Index>& m) { return m.val(); }
@@ -87,6 +88,7 @@ namespace c13
   inline double val_u(Index i, int c) { return double(int((i * 5 + Index(3 * c)) % 17) - 8) / 4.0; }
   inline double val_v(Index i, int c) { return double(int((i * 3 + Index(c)) % 13) - 6) / 2.0; }
   inline double val_w(int rank, Index i, int c) { return double(int((i * 7 + Index(11 * rank + 5 * c)) % 19) - 9) / 4.0; }
+  inline double val_w2(int rank, Index i, int c) { return double(int((i * 3 + Index(7 * rank + 2 * c)) % 23) - 11) / 8.0; }
   inline double val_g(Index i, int c) { return double(int((i + Index(c)) % 5)) / 2.0; }
   inline bool in_dirichlet(Index i) { return (i % 4) == 1; }
   /// exact dyadic "element matrix" entry of base cell K for the base dofs (ga, gb); symmetric, diagonally dominant
@@ -187,7 +189,8 @@ namespace c13
   /// results of one rank in one execution
   struct RankOut
   {
-    std::vector<double> vec[3];     // result vectors (pod layout)
+    static constexpr int nvec = 6;
+    std::vector<double> vec[6];     // result vectors (pod layout)
     std::vector<double> scal;       // result scalars
     std::vector<double> mat;        // matrix values (convert_to_1)
     std::string note;               // failures detected inside the rank thread
@@ -224,6 +227,8 @@ namespace c13
       Level lvl;
       std::vector<int> nb;             // neighbour ranks with a non-empty mirror, in halo-map order
       std::vector<Mirror> mirrors;
+      std::vector<int> all_nb;         // all halo neighbours, including those with an empty mirror
+      std::vector<Mirror> all_mirrors;
       int halos = 0, empty_mirrors = 0;
       std::vector<Index> p2b;          // patch dof -> base dof
       Mat A0;                          // type-0 matrix of the patch
@@ -377,6 +382,7 @@ namespace c13
           ++R.halos;
           Mirror m;
           Assembly::MirrorAssembler::assemble_mirror(m, *R.lvl.space, *h.second);
+          R.all_nb.push_back(h.first); R.all_mirrors.push_back(m.clone(LAFEM::CloneMode::Deep));
           if(m.empty()) { ++R.empty_mirrors; continue; }
           { const Index* mi = m.indices(); bool asc = true; for(Index q = 1; q < m.num_indices(); ++q) if(mi[q] < mi[q - 1]) asc = false; if(!asc) ++R.nonasc; }
           R.nb.push_back(h.first);
